@@ -8,6 +8,24 @@ namespace Cnfgen
 namespace Heap
 local notation "Addr" => Nat
 
+/-- pure effect of `newF.add_linear(lits, op, k)` (check=True) -/
+def addLinearPure (R : Snap) (lits : List Int) (op : Op) (k : Int) : Except Err Snap :=
+  if lits.isEmpty then .ok { R with clauses := R.clauses ++ Linear.add lits op k }
+  else match checkLits R.numvar lits with
+    | .error e => .error e
+    | .ok nv' => .ok { R with numvar := nv', clauses := R.clauses ++ Linear.add lits op k }
+
+def addLinearAllPure (op : Op) (k : Int) : Snap → List (List Int) → Except Err Snap
+  | R, [] => .ok R
+  | R, l :: ls =>
+    match addLinearPure R l op k with
+    | .error e => .error e
+    | .ok R' => addLinearAllPure op k R' ls
+
+/-- the literal lists of the selector constraints of `FormulaLifting`, for a result with `nv` variables -/
+def selectorLists (k nv : Nat) : List (List Int) :=
+  (rangeStep (k + 1) (nv + 1) (2 * k)).map (fun y => (List.range k).map (fun i => ((y + i : Nat) : Int)))
+
 /-- pure effect of one statement on the snapshot `R` of the result, `F` being the snapshot of the input -/
 def Act.pure (F : Snap) : Act → Snap → Except Err Snap
   | .copyHeader _, R => .ok { R with header := F.header }
@@ -23,7 +41,7 @@ def Act.pure (F : Snap) : Act → Snap → Except Err Snap
     match Subst.run R.cnf F.numvar enc F.clauses with
     | .error e => .error e
     | .ok G => .ok { R with numvar := G.nvars, clauses := G.clauses }
-  | .liftSelectors _, _ => .error modelErr          -- not covered by the refinement (see `Act.Covered`)
+  | .liftSelectors k, R => addLinearAllPure .eq 1 R (selectorLists k R.numvar)
   | .loadShuffled _ tbl mapping, R =>
     match Shuffle.foldE (Shuffle.loadStep F.cnf tbl) R.cnf mapping with
     | .error e => .error e
@@ -33,7 +51,6 @@ def Act.pure (F : Snap) : Act → Snap → Except Err Snap
 def Act.Covered (f : Nat) : Act → Prop
   | .copyHeader src => src = f
   | .substFrom src _ => src = f
-  | .liftSelectors _ => False
   | .loadShuffled src _ _ => src = f
   | _ => True
 
@@ -110,6 +127,43 @@ theorem snap_substLoop {x : Nat} (N : Nat) (enc : Int → List Clause) :
           | error e => simp only [hrun] at ih ⊢; exact ih
           | ok G' => simp only [hrun] at ih ⊢; exact ih
     · cases hr
+
+theorem snap_addLinear {s : Store} {x : Nat} {R : Snap} (hR : snap s x = some R) (lits : List Int) (op : Op) (k : Int) :
+    match addLinearPure R lits op k with
+    | .ok R' => (addLinear s x lits op k).2 = .ok () ∧ snap (addLinear s x lits op k).1 x = some R'
+    | .error e => (addLinear s x lits op k).2 = .error e := by
+  obtain ⟨cl, hd, gr, as, L⟩ := layout_of_snap hR
+  unfold addLinearPure addLinear
+  simp only [readCNF, L.hx]
+  by_cases he : lits.isEmpty = true
+  · simp only [he, if_true]
+    exact snap_addAllVals_false _ s R hR
+  · simp only [he]
+    cases hc : checkLits R.numvar lits with
+    | error e => rfl
+    | ok nv' =>
+      simp only []
+      have := snap_addAllVals_false (Linear.add lits op k) _ _ (snap_write_numvar L nv').snap
+      exact this
+
+theorem snap_addLinearAll {x : Nat} (op : Op) (k : Int) : ∀ (ls : List (List Int)) (s : Store) (R : Snap),
+    snap s x = some R →
+    match addLinearAllPure op k R ls with
+    | .ok R' => (addLinearAll s x op k ls).2 = .ok () ∧ snap (addLinearAll s x op k ls).1 x = some R'
+    | .error e => (addLinearAll s x op k ls).2 = .error e
+  | [], s, R, h => by simpa [addLinearAllPure, addLinearAll] using h
+  | l :: ls, s, R, h => by
+    have h1 := snap_addLinear h l op k
+    unfold addLinearAllPure addLinearAll
+    rcases hp : addLinear s x l op k with ⟨s1, res⟩
+    rw [hp] at h1
+    cases ha : addLinearPure R l op k with
+    | error e => simp only [ha] at h1 ⊢; subst h1; rfl
+    | ok R1 =>
+      simp only [ha] at h1 ⊢
+      obtain ⟨e1, e2⟩ := h1
+      subst e1
+      exact snap_addLinearAll op k ls s1 R1 e2
 
 theorem readIntsAll_length {s : Store} : ∀ {as : List Addr} {cs : List (List Int)},
     readIntsAll s as = some cs → as.length = cs.length
@@ -241,7 +295,9 @@ theorem runAct_refines {s : Store} {r f : Nat} {R F : Snap} (a : Act) (hc : a.Co
       refine ⟨trivial, ?_⟩
       have L1 := snap_write_groups L m.groups
       exact (snap_write_numvar L1 m.numvar).snap
-  | liftSelectors k => exact absurd hc (by simp [Act.Covered])
+  | liftSelectors k =>
+    simp only [Act.pure, runAct, readCNF, L.hx]
+    exact snap_addLinearAll .eq 1 _ s R hR
   | loadShuffled src tbl mp =>
     simp only [Act.Covered] at hc; subst hc
     simp only [Act.pure, runAct]
